@@ -147,6 +147,10 @@ pub struct C09Case {
     /// i.e. after arbiters that were stopped early have been joined (their threads are gone)
     #[serde(default)]
     pub late: u8,
+    /// arbiters after the first idle one are created by `Arbiter::new()` called from a task that
+    /// runs on that arbiter's thread (and handed back), not from the system thread
+    #[serde(default)]
+    pub via_arbiter: bool,
 }
 
 /// an earlier System on this very thread, run to completion
@@ -209,7 +213,13 @@ fn run_c09(c: &C09Case) -> CaseResult {
     }
     let mut slots = vec![];
     let wrong_system = Arc::new(AtomicBool::new(false));
+    let mut created_via_arbiter = false;
     for fate in &c.arbiters {
+        let creator = if c.via_arbiter {
+            slots.iter().find(|s: &&Slot| matches!(s.fate, Fate::Idle | Fate::Detached | Fate::StoppedJoined | Fate::StoppedSlowTeardown { .. })).and_then(|s| s.arb.as_ref()).map(|a| a.handle())
+        } else {
+            None
+        };
         let arb = match *fate {
             Fate::CustomRt { slow } => Arbiter::with_tokio_rt(move || {
                 if slow {
@@ -217,7 +227,22 @@ fn run_c09(c: &C09Case) -> CaseResult {
                 }
                 tokio::runtime::Builder::new_current_thread().enable_all().build().unwrap()
             }),
-            _ => Arbiter::new(),
+            _ => match creator {
+                Some(h) => {
+                    let (tx, rx) = mpsc::channel();
+                    let _ = h.spawn_fn(move || {
+                        let _ = tx.send(Arbiter::new());
+                    });
+                    match rx.recv_timeout(WATCHDOG) {
+                        Ok(a) => {
+                            created_via_arbiter = true;
+                            a
+                        }
+                        Err(_) => return Err(Fail::new("C09/create-from-arbiter", "Arbiter::new() called from a task on an idle arbiter's thread did not return an arbiter")),
+                    }
+                }
+                None => Arbiter::new(),
+            },
         };
         let flag = Arc::new(AtomicBool::new(false));
         let f2 = flag.clone();
@@ -450,6 +475,7 @@ fn run_c09(c: &C09Case) -> CaseResult {
     obs.label_if(matches!(from, StopFrom::ArbiterTask { .. }), "stop-from-arbiter");
     obs.label_if(matches!(from, StopFrom::Foreign), "stop-from-foreign-thread");
     obs.label_if(matches!(from, StopFrom::InsideBlockOn), "stop-inside-block_on");
+    obs.label_if(created_via_arbiter, "arbiter-created-from-an-arbiter-thread");
     obs.label_if(c.late % 3 > 0 && c.arbiters.iter().any(|f| matches!(f, Fate::StoppedJoined)), "arbiter-created-after-an-early-one-had-gone");
     obs.label_if(c.code != 0, "nonzero-code");
     obs.label_if(c.arbiters.iter().any(|f| matches!(f, Fate::BusyBacklog { .. })), "stop-behind-long-queue");
@@ -528,12 +554,12 @@ pub fn fresh_process_cases() -> Vec<C09Case> {
                 k /= 3;
             }
             for from in [StopFrom::SystemTask, StopFrom::Foreign] {
-                v.push(C09Case { arbiters: arbiters.clone(), from, code: if code % 2 == 0 { 0 } else { 7 }, second: None, plain_run: false, jitter: [0, 0, 0], arbiter_between: false, sys_rt: 0, prior_system: false, late: 0 });
+                v.push(C09Case { arbiters: arbiters.clone(), from, code: if code % 2 == 0 { 0 } else { 7 }, second: None, plain_run: false, jitter: [0, 0, 0], arbiter_between: false, sys_rt: 0, prior_system: false, late: 0, via_arbiter: false });
             }
             // an arbiter created after an early one has gone (ids, registry keys and thread names
             // of a fresh process are small and predictable)
             if arbiters.contains(&Fate::StoppedJoined) {
-                v.push(C09Case { arbiters: arbiters.clone(), from: StopFrom::SystemTask, code: 7, second: None, plain_run: false, jitter: [0, 0, 0], arbiter_between: false, sys_rt: 0, prior_system: false, late: 1 + (code % 2) as u8 });
+                v.push(C09Case { arbiters: arbiters.clone(), from: StopFrom::SystemTask, code: 7, second: None, plain_run: false, jitter: [0, 0, 0], arbiter_between: false, sys_rt: 0, prior_system: false, late: 1 + (code % 2) as u8, via_arbiter: code % 2 == 1 });
             }
         }
     }
@@ -1167,7 +1193,8 @@ pub mod gen {
                     Some(Second::Sequenced { code: c2 }) if c2 == code => Some(Second::Sequenced { code: code.wrapping_add(5) }),
                     s => s,
                 };
-                C09Case { arbiters, from, code, second, plain_run, jitter, arbiter_between, sys_rt, prior_system, late }
+                let via_arbiter = jitter[2] % 3 == 0;
+                C09Case { arbiters, from, code, second, plain_run, jitter, arbiter_between, sys_rt, prior_system, late, via_arbiter }
             })
     }
 
